@@ -416,28 +416,98 @@ def run(p, led, tier):
     twt = p.find_method(nuc, "transcribe_with_tools")
     if twt is None:
         raise AnchorError("Nucleus.transcribe_with_tools not found")
-    ncfg = cfg_of(twt, led)
-    check_bounded_calls(led, "C18-R3", twt, ncfg, lambda c: isinstance(c.func, ast.Attribute) and c.func.attr == "complete_with_tools", "provider tool round", {"max_iterations": 1}, list(nuc.methods.values()))
-    loops = [n for n in walk_no_nested(twt.node) if isinstance(n, ast.While)]
-    key = "Nucleus.transcribe_with_tools ▸ one plain completion after the loop"
-    if len(loops) != 1:
-        led.fail("C18-R3", key, where(twt, twt.node), f"{len(loops)} while loops")
+    _tool_loop_table(p, led, nuc, twt)
+    # structural bound for *every* value of the limit, on whichever function below transcribe_with_tools hosts the provider round
+    host = None
+    for g in [twt] + [g for g in res.reachable_from(twt) if g.module.rel == twt.module.rel and g is not twt]:
+        if any(isinstance(c, ast.Call) and isinstance(c.func, ast.Attribute) and c.func.attr == "complete_with_tools" for c in walk_no_nested(g.node)):
+            host = g
+            break
+    if host is None:
+        led.info("no function below transcribe_with_tools calls complete_with_tools directly: the bound is decided for limits 0–4 by the interpreted table only")
     else:
-        lp = loops[0]
-        head = ncfg.node_of(lp.test)
-        after = ncfg.reach(start_edges=[(head, m, l) for m, l in head.succ if l == "F"])
-        tcalls = [ncfg.node_of(c) for c in walk_no_nested(twt.node) if isinstance(c, ast.Call) and is_self_attr(c.func, "transcribe") and not _inside(c, lp)
-                  and ncfg.has_node(c) and ncfg.node_of(c) in after]
-        inl = [c for c in ast.walk(lp) if isinstance(c, ast.Call) and (is_self_attr(c.func, "transcribe") or (isinstance(c.func, ast.Attribute) and c.func.attr == "complete"))]
-        # every path from loop exhaustion to return passes exactly one plain completion
-        esc = ncfg.escapes(start_edges=[(head, m, l) for m, l in head.succ if l == "F"], through=set(tcalls), targets=[ncfg.exit])
-        multi = any(b in ncfg.reach(start_edges=ncfg.out_edges(a)) for a in tcalls for b in tcalls)
-        if not tcalls or esc:
-            led.fail("C18-R3", key, where(twt, lp), "after the tool rounds are exhausted the function can return without the final plain completion")
-        elif multi or inl:
-            led.fail("C18-R3", key, where(twt, lp), "more than one plain completion per exhausted loop (or a plain completion inside the loop)")
+        ncfg = cfg_of(host, led)
+        in_loop = any(isinstance(lp, (ast.While, ast.For)) and any(isinstance(c, ast.Call) and isinstance(c.func, ast.Attribute) and c.func.attr == "complete_with_tools" for c in ast.walk(lp))
+                      for lp in walk_no_nested(host.node))
+        if in_loop:
+            check_bounded_calls(led, "C18-R3", host, ncfg, lambda c: isinstance(c.func, ast.Attribute) and c.func.attr == "complete_with_tools", "provider tool round", {"max_iterations": 1},
+                                list(nuc.methods.values()) + [g for g in p.all_funcs if g.module.rel == host.module.rel and g.cls is None])
         else:
-            led.ok("C18-R3", key, where(twt, tcalls[0].ast), "the exhausted edge of the loop reaches RETURN only through a single self.transcribe(...) call")
+            led.info(f"{host.qual} calls the provider outside a loop construct (recursion / helper): bound decided for limits 0–4 by the interpreted table only")
+
+
+def _tool_loop_table(p, led, nuc, twt):
+    """the provider asks for tools forever (or stops at round k, or raises): rounds ≤ max_iterations and exactly one plain
+    completion after an exhausted loop — interpreted for max_iterations 0..4"""
+    from ..fdai import Interp, Obj, Unknown, PyRaise, ExcVal, explore, Imprecise, stub
+    probs, npaths = [], 0
+    for limit in (0, 1, 2, 3, 4):
+        for behaviour in ("forever", "stops") + (("raises",) if limit else ()):
+            def go(o, _limit=limit, _beh=behaviour):
+                it = Interp(p, o)
+                log = []
+
+                @stub
+                def cwt(interp, args, kwargs):
+                    log.append("tools")
+                    n_ = log.count("tools")
+                    if _beh == "raises" and n_ == 1:
+                        raise PyRaise(ExcVal("RuntimeError", ("provider down",)))
+                    if _beh == "stops" and interp.o.choose(2, f"round {n_}: provider stops / asks for tools again") == 0:
+                        return (Unknown(f"answer{n_}"), [])
+                    return (Unknown(f"partial{n_}"), [Obj(None, {"name": "t", "id": f"c{n_}", "arguments": {}}, tag="toolcall")])
+
+                @stub
+                def complete(interp, args, kwargs):
+                    log.append("plain")
+                    return Unknown("final_answer")
+                provider = Obj(None, {"name": "stub", "complete_with_tools": cwt, "complete": complete}, tag="provider")
+                n = it.instantiate(nuc, [], dict(provider=provider))
+                n.fields["provider"] = provider
+                it.stubs["Nucleus.transcribe"] = lambda interp, args, kwargs: (log.append("plain"), Unknown("final_answer"))[1]
+                mito = Obj(None, {}, tag="mitochondria")
+
+                @stub
+                def schemas(interp, args, kwargs):
+                    return [Unknown("schema")]
+
+                @stub
+                def run_tool(interp, args, kwargs):
+                    log.append("exec")
+                    return Obj(None, {"call_id": "c", "output": "o", "success": True, "error": None}, tag="toolresult")
+                mito.fields.update(export_tool_schemas=schemas, execute_tool_call=run_tool)
+                try:
+                    it.call_fi(twt, [n, "prompt", mito, None, _limit], {})
+                except PyRaise as e:
+                    return dict(log=log, raised=repr(e.exc))
+                return dict(log=log)
+            try:
+                paths = [r for _, r in explore(go, max_paths=400)]
+            except Imprecise as e:
+                if "exceeds" in str(e) and "iterations" in str(e):
+                    probs.append(f"max_iterations={limit}, provider {behaviour}: the tool loop does not stop under interpretation ({e}): the budget does not bound the provider rounds")
+                    continue
+                raise AnchorError(f"Nucleus.transcribe_with_tools could not be interpreted: {e}")
+            npaths += len(paths)
+            for r in paths:
+                tag = f"max_iterations={limit}, provider {behaviour}"
+                rounds, plain = r["log"].count("tools"), r["log"].count("plain")
+                if rounds > limit:
+                    probs.append(f"{tag}: {rounds} tool rounds")
+                if "raised" in r:
+                    if behaviour != "raises":
+                        probs.append(f"{tag}: raises {r['raised']}")
+                    continue
+                if behaviour == "forever" and plain != 1:
+                    probs.append(f"{tag}: {plain} plain completion(s) after the exhausted loop (exactly one expected)")
+                if plain > 1:
+                    probs.append(f"{tag}: {plain} plain completions")
+    key = "Nucleus.transcribe_with_tools ▸ rounds ≤ max_iterations and one final completion (limits 0–4 × provider behaviours)"
+    if probs:
+        led.fail("C18-R3", key, where(twt, twt.node), sorted(set(probs))[0], path=sorted(set(probs))[:6], witness="a provider that keeps requesting the same successful tool call never reaches the final completion")
+    else:
+        led.ok("C18-R3", key, where(twt, twt.node), f"{npaths} path(s): tool rounds never exceed the limit; a provider that asks for tools forever gets exactly one plain completion at the end")
+    led.ok("C18-R3", "Nucleus.transcribe_with_tools ▸ one plain completion after the loop", where(twt, twt.node), "row family of the table above", nontrivial=False) if not probs else None
 
 
 def _targets_name(n, name):
